@@ -208,6 +208,19 @@ def check(case):
               need(abs(float(tn.time) - et) <= TOL, f"time_notes({opt_name}) note #{i} at beat {b}: time {float(tn.time)!r}, exact {et!r}{ctx}")
     m = passes[0][0]
     labels |= {l for l in m.coincidences() if "warp" in l}
+    # two timing data that differ in nothing but the offset (-1 and -2 seconds; Python hashes -1 and -2 alike, so anything
+    # keyed on a hash of the values confuses them), timed one after the other in this process: every time shifts by 1 s
+    if not corpus and src:
+        import copy
+
+        res = []
+        for off in ("-1", "-2"):
+            tl_o = copy.deepcopy(tl)
+            tl_o["offset"] = off
+            res.append([t for t in time_notes(nd, timing_data(tl_o), UnhittableNotes["KEEP_NOTE"])])
+        for a, b in zip(res[0], res[1]):
+            evals += 1
+            need(abs((b.time - a.time) - 1.0) <= 1e-9, f"note at beat {a.note.beat}: time {a.time!r} with offset -1, {b.time!r} with offset -2 (expected exactly 1 s more); timeline {tl}")
     return Verdict(nontrivial=unhit_notes > 0, labels=sorted(labels), evals=evals)
 
 
